@@ -232,6 +232,49 @@ def case_for(seed, i, tier):
     }
 
 
+def model_candidates(m):
+    cands = []
+    for gi in range(len(m.get("groups", []))):
+        cands.append(dict(m, groups=m["groups"][:gi] + m["groups"][gi + 1:]))
+    for ti in range(len(m["traits"])):
+        if len(m["traits"]) > 1:
+            gone = m["traits"][ti]["name"]
+            groups = [dict(g, traits=[x for x in g["traits"] if x != gone]) for g in m.get("groups", [])]
+            cands.append(dict(m, traits=m["traits"][:ti] + m["traits"][ti + 1:], groups=[g for g in groups if g["traits"]]))
+    for gi, g in enumerate(m.get("groups", [])):
+        for key in ("traits", "conts", "ctxs"):
+            for xi in range(len(g[key])):
+                if len(g[key]) > 1:
+                    ng = dict(g, **{key: g[key][:xi] + g[key][xi + 1:]})
+                    cands.append(dict(m, groups=m["groups"][:gi] + [ng] + m["groups"][gi + 1:]))
+        if g.get("clone"):
+            cands.append(dict(m, groups=m["groups"][:gi] + [dict(g, clone=False)] + m["groups"][gi + 1:]))
+    for ti, t in enumerate(m["traits"]):
+        for ci in range(len(t["conts"])):
+            if len(t["conts"]) > 1:
+                nt = dict(t, conts=t["conts"][:ci] + t["conts"][ci + 1:])
+                cands.append(dict(m, traits=m["traits"][:ti] + [nt] + m["traits"][ti + 1:]))
+        for fi in range(len(t["funcs"])):
+            if len(t["funcs"]) > 1:
+                nt = dict(t, funcs=t["funcs"][:fi] + t["funcs"][fi + 1:])
+                cands.append(dict(m, traits=m["traits"][:ti] + [nt] + m["traits"][ti + 1:]))
+        for fi, f in enumerate(t["funcs"]):
+            for ai in range(len(f[2])):
+                nf = (f[0], f[1], f[2][:ai] + f[2][ai + 1:], f[3])
+                nt = dict(t, funcs=t["funcs"][:fi] + [nf] + t["funcs"][fi + 1:])
+                cands.append(dict(m, traits=m["traits"][:ti] + [nt] + m["traits"][ti + 1:]))
+        if t.get("rettmp_real"):
+            cands.append(dict(m, traits=m["traits"][:ti] + [dict(t, rettmp_real=False)] + m["traits"][ti + 1:]))
+    for ci in range(1, len(m["contexts"])):
+        gone = m["contexts"][ci]
+        if not any(gone in g["ctxs"] for g in m.get("groups", [])):
+            cands.append(dict(m, contexts=m["contexts"][:ci] + m["contexts"][ci + 1:]))
+    for flag in ("leftover", "generic_objs", "foreign_early", "foreign_names", "guard", "no_context"):
+        if m.get(flag):
+            cands.append(dict(m, **{flag: False}))
+    return cands
+
+
 def minimise_case(case, cls):
     """Shrinks the header model (fewer traits, containers, contexts, no leftover, no config) while
     the same violation class persists."""
@@ -250,45 +293,7 @@ def minimise_case(case, cls):
     while changed:
         changed = False
         m = cur["model"]
-        cands = []
-        for gi in range(len(m.get("groups", []))):
-            cands.append(dict(m, groups=m["groups"][:gi] + m["groups"][gi + 1:]))
-        for ti in range(len(m["traits"])):
-            if len(m["traits"]) > 1:
-                gone = m["traits"][ti]["name"]
-                groups = [dict(g, traits=[x for x in g["traits"] if x != gone]) for g in m.get("groups", [])]
-                cands.append(dict(m, traits=m["traits"][:ti] + m["traits"][ti + 1:], groups=[g for g in groups if g["traits"]]))
-        for gi, g in enumerate(m.get("groups", [])):
-            for key in ("traits", "conts", "ctxs"):
-                for xi in range(len(g[key])):
-                    if len(g[key]) > 1:
-                        ng = dict(g, **{key: g[key][:xi] + g[key][xi + 1:]})
-                        cands.append(dict(m, groups=m["groups"][:gi] + [ng] + m["groups"][gi + 1:]))
-            if g.get("clone"):
-                cands.append(dict(m, groups=m["groups"][:gi] + [dict(g, clone=False)] + m["groups"][gi + 1:]))
-        for ti, t in enumerate(m["traits"]):
-            for ci in range(len(t["conts"])):
-                if len(t["conts"]) > 1:
-                    nt = dict(t, conts=t["conts"][:ci] + t["conts"][ci + 1:])
-                    cands.append(dict(m, traits=m["traits"][:ti] + [nt] + m["traits"][ti + 1:]))
-            for fi in range(len(t["funcs"])):
-                if len(t["funcs"]) > 1:
-                    nt = dict(t, funcs=t["funcs"][:fi] + t["funcs"][fi + 1:])
-                    cands.append(dict(m, traits=m["traits"][:ti] + [nt] + m["traits"][ti + 1:]))
-            for fi, f in enumerate(t["funcs"]):
-                for ai in range(len(f[2])):
-                    nf = (f[0], f[1], f[2][:ai] + f[2][ai + 1:], f[3])
-                    nt = dict(t, funcs=t["funcs"][:fi] + [nf] + t["funcs"][fi + 1:])
-                    cands.append(dict(m, traits=m["traits"][:ti] + [nt] + m["traits"][ti + 1:]))
-            if t.get("rettmp_real"):
-                cands.append(dict(m, traits=m["traits"][:ti] + [dict(t, rettmp_real=False)] + m["traits"][ti + 1:]))
-        for ci in range(1, len(m["contexts"])):
-            gone = m["contexts"][ci]
-            if not any(gone in g["ctxs"] for g in m.get("groups", [])):
-                cands.append(dict(m, contexts=m["contexts"][:ci] + m["contexts"][ci + 1:]))
-        for flag in ("leftover", "generic_objs", "foreign_early", "foreign_names", "guard", "no_context"):
-            if m.get(flag):
-                cands.append(dict(m, **{flag: False}))
+        cands = model_candidates(m)
         for c in cands:
             cc = dict(cur, model=c)
             if fails(cc):
@@ -407,6 +412,7 @@ def wrap_case_for(seed, i, tier):
         "plan_seeds": [r.below(1 << 30) for _ in range(3 if tier == "quick" else 6)],
         # the first program of every case runs under ASan+UBSan in the thorough tier, of every tenth case in the quick tier
         "sanitize": tier != "quick" or i % 10 == 0,
+        "lang": "cpp" if i % 3 == 2 else "c",
     }
 
 
@@ -415,12 +421,15 @@ def eval_wrap_case(case, keep_dir=None):
     per plan. Returns dict(violation, findings, stats)."""
     import wrapsim
     model = case["model"] if "model" in case else hdrgen.gen_model(case["model_seed"])
-    header, _ = hdrgen.render(model)
+    cpp = case.get("lang") == "cpp"
+    header, _ = hdrgen.render_cpp(model) if cpp else hdrgen.render(model)
     config = CONFIGS[case["config"]]
     d = keep_dir or tempfile.mkdtemp(prefix="cglue-verif-wrapsim-")
     stats = {"tool_runs": 0, "programs": 0, "slot_calls": 0, "fault.hash_seed": 0}
     findings = []
     try:
+        if cpp:
+            return _eval_wrap_case_cpp(case, model, header, config, d, stats)
         hp = os.path.join(d, "input.h")
         with open(hp, "w") as f:
             f.write(header)
@@ -456,6 +465,42 @@ def eval_wrap_case(case, keep_dir=None):
             shutil.rmtree(d, ignore_errors=True)
 
 
+def _eval_wrap_case_cpp(case, model, header, config, d, stats):
+    import wrapsim
+    findings = []
+    if config is not None and "default_container" in config and "default_context" not in config:
+        # a default container without a default context makes the tool name `NoContext` as the
+        # default context type; how cbindgen declares that type in C++ is not modelled here
+        config = None
+    hp = os.path.join(d, "input.hpp")
+    with open(hp, "w") as f:
+        f.write(header)
+    r = run_tool(d, hp, config, 0, case["hash_seed"])
+    stats["tool_runs"] += 1
+    stats["fault.hash_seed"] += 1
+    stats["cpp_headers"] = 1
+    if r["rc"] != 0 or r["output"] is None:
+        return {"violation": None, "findings": [], "stats": stats, "skipped": "tool failed"}
+    out_hpp = r["out_path"] + "pp"
+    os.replace(r["out_path"], out_hpp)
+    types = hdrgen.object_types_cpp(model)
+    plans = case.get("plans") or [wrapsim.gen_plan_types(types, ps) for ps in case["plan_seeds"]]
+    logs = hashlib.sha256()
+    for pi, plan in enumerate(plans):
+        san = bool(case.get("sanitize")) and pi == 0
+        x = wrapsim.run_driver_cpp(d, model, plan, out_hpp, tag=str(pi), sanitize=san)
+        stats["programs"] += 1
+        stats["programs_cpp"] = stats.get("programs_cpp", 0) + 1
+        stats["programs_sanitized"] = stats.get("programs_sanitized", 0) + (1 if san else 0)
+        stats["slot_calls"] += x.get("slots", 0)
+        logs.update(x.get("log", "").encode())
+        if x["violation"]:
+            return {"violation": x["violation"], "findings": findings, "stats": stats, "plan_index": pi}
+        if x.get("finding") and not any(f["site"] == x["finding"]["site"] for f in findings):
+            findings.append(dict(x["finding"], plan_index=pi))
+    return {"violation": None, "findings": findings, "stats": stats, "digest": hashlib.sha256(r["output"]).hexdigest(), "log_digest": logs.hexdigest()}
+
+
 def _wrap_findings_as_violations(r):
     """Findings that are not in the known-findings file are violations like any other."""
     known = load_known()
@@ -466,10 +511,38 @@ def _wrap_findings_as_violations(r):
     return out
 
 
+def _remap_plan(old_types, new_types, plan):
+    ident = lambda o: (o["kind"], o["name"], o["cont"], o["ctx"])
+    index = {ident(o): i for i, o in enumerate(new_types)}
+    steps = []
+    objk = {}
+    for st in plan["steps"]:
+        st = dict(st)
+        if st["op"] == "create":
+            k = index.get(ident(old_types[st["type"]]))
+            if k is None:
+                return None
+            st["type"] = k
+            objk[st["obj"]] = k
+        elif st["op"] == "call":
+            k = objk.get(st["obj"])
+            if k is None:
+                return None
+            fs = [f for v in new_types[k]["vtbls"] if v["field"] == st["field"] for f in v["funcs"] if f[0] == st["fname"]]
+            if not fs or len(fs[0][2]) != len(st["args"]):
+                # an argument was removed: drop the same position is not known here, so give up on this candidate
+                return None
+            if "new_obj" in st:
+                objk[st["new_obj"]] = k
+        steps.append(st)
+    return dict(plan, steps=steps)
+
+
 def minimise_wrap_case(case, cls, plan_index):
     import wrapsim
     model = case["model"] if "model" in case else hdrgen.gen_model(case["model_seed"])
-    plans = case.get("plans") or [wrapsim.gen_plan(model, ps) for ps in case["plan_seeds"]]
+    types = hdrgen.object_types_cpp(model) if case.get("lang") == "cpp" else hdrgen.object_types(model)
+    plans = case.get("plans") or [wrapsim.gen_plan_types(types, ps) for ps in case["plan_seeds"]]
     cur = dict(case, model=model, plans=[plans[plan_index]] if plan_index is not None else plans[:1])
     cur.pop("model_seed", None)
     cur.pop("plan_seeds", None)
@@ -517,6 +590,20 @@ def minimise_wrap_case(case, cls, plan_index):
             if fails(cand):
                 cur = cand
                 changed = True
+                continue
+        # then the header model, with the plan carried over by object-type identity
+        cpp = cur.get("lang") == "cpp"
+        old_types = hdrgen.object_types_cpp(cur["model"]) if cpp else hdrgen.object_types(cur["model"])
+        for mc in model_candidates(cur["model"]):
+            new_types = hdrgen.object_types_cpp(mc) if cpp else hdrgen.object_types(mc)
+            np = _remap_plan(old_types, new_types, plan)
+            if np is None:
+                continue
+            cand = dict(cur, model=mc, plans=[np])
+            if fails(cand):
+                cur = cand
+                changed = True
+                break
     return cur, tries
 
 
@@ -553,13 +640,13 @@ def phase_wrappers(prop, tier, seed, report):
                     report["known_findings"].append({"class": f["class"], "site": f["site"]})
                     log("KNOWN-FINDING: property=%s %s at %s (%s)" % (prop, f["class"], f["site"], e.get("what", "")))
             else:
-                viol.append((c, f, None))
+                viol.append((c, f, f.get("plan_index")))
     programs = stats.get("programs", 0)
     report["evaluations"] += programs
     report["distinct_nontrivial"] += len(digests) * (3 if tier == "quick" else 6)
     report["jobs"].append({
         "engine": "wrapsim", "binary": "cglue-bindgen (release, built from /repo); generated wrappers compiled with cc -std=c99 and executed", "header_models": n,
-        "c_programs_run": programs, "of_which_under_asan_ubsan": stats.get("programs_sanitized", 0), "vtable_entry_invocations_through_wrappers": stats.get("slot_calls", 0), "wall_s": round(wall, 2),
+        "c_programs_run": programs - stats.get("programs_cpp", 0), "cpp_programs_run": stats.get("programs_cpp", 0), "of_which_under_asan_ubsan": stats.get("programs_sanitized", 0), "vtable_entry_invocations_through_wrappers": stats.get("slot_calls", 0), "wall_s": round(wall, 2),
         "runs_per_hour": int(programs / wall * 3600) if wall > 0 else 0, "distinct_processed_headers": len(digests),
         "distinct_model_shapes (traits, groups, contexts, no-context objects, config)": len(shapes),
         "faults_fired": {"hash_seed": stats.get("fault.hash_seed", 0)},
